@@ -148,8 +148,9 @@ func vdmGen(rng *rand.Rand, k, kind int) (string, string) {
 	return string(b), strconv.Quote(string(b))
 }
 
-func TestVerifC02(t *testing.T) {
-	r := hlib.New("C02")
+func vdmMain(t *testing.T, id string, only ...string) {
+	r := hlib.New(id)
+	r.Only = only
 	defer r.Done(t)
 	rng := rand.New(rand.NewSource(r.Seed))
 	thorough := r.Tier == "thorough"
@@ -279,4 +280,17 @@ func TestVerifC02(t *testing.T) {
 		}
 	}
 	flush()
+}
+
+func TestVerifC02(t *testing.T) { vdmMain(t, "C02") }
+
+// The same cases reported under the other properties they serve (only the named checks count).
+func TestVerifC10DM(t *testing.T) {
+	vdmMain(t, "C10", "panic", "result-shape", "rejects-representable", "accepts-unrepresentable")
+}
+func TestVerifC12DM(t *testing.T) {
+	vdmMain(t, "C12", "ecc-count", "reference-reader")
+}
+func TestVerifC13DM(t *testing.T) {
+	vdmMain(t, "C13", "smallest-size")
 }
